@@ -93,3 +93,29 @@ Proof.
     unfold guard in E. destruct (N.leb_spec (N.of_nat (length locals) + N.of_nat h') MAX_ALLOWED_STACK_HEIGHT); [|discriminate].
     inversion E; subst. split; [eapply make_locals_length; eauto|auto].
 Qed.
+
+(** ** The memory bound handed to the interpreter ([Module::compile], artifact.rs):
+    [max_size = limits.max.map(|x| min(x, MAX_NUM_PAGES)).unwrap_or(MAX_NUM_PAGES)].
+    The interpreter preallocates [MAX_NUM_PAGES * PAGE_SIZE] bytes and [memory.grow] only
+    checks against [max_size], so [max_size <= MAX_NUM_PAGES] is what keeps [set_len] inside
+    the allocation. *)
+Definition artifact_max_memory (mm : N * option N) : N :=
+  match snd mm with Some x => N.min x MAX_NUM_PAGES | None => MAX_NUM_PAGES end.
+Definition artifact_memory (m : vmodule) : option (N * N) :=
+  match vm_mem m with Some mm => Some (fst mm, artifact_max_memory mm) | None => None end.
+
+Theorem artifact_memory_bounded_thm signext m init mx :
+  validate_module signext m = true -> artifact_memory m = Some (init, mx) ->
+  init <= mx /\ mx <= MAX_NUM_PAGES /\ mx * PAGE_SIZE <= MAX_NUM_PAGES * PAGE_SIZE /\ MAX_NUM_PAGES * PAGE_SIZE < 2 ^ 32.
+Proof.
+  intros V E. pose proof (validate_module_limits_thm _ _ V) as ML.
+  pose proof limits_consistent as (_ & _ & LC3 & LC4 & _).
+  unfold artifact_memory in E. destruct (vm_mem m) as [[mn mxo]|] eqn:EM; [|discriminate].
+  inversion E; subst; clear E. cbn [fst]. unfold artifact_max_memory. cbn [snd].
+  destruct (ml_mem_min _ ML _ _ EM) as [M1 M2].
+  assert (B : match mxo with Some x => N.min x MAX_NUM_PAGES | None => MAX_NUM_PAGES end <= MAX_NUM_PAGES)
+    by (destruct mxo; [apply N.le_min_r|apply N.le_refl]).
+  split; [|split; [exact B|split; [apply N.mul_le_mono_r; exact B|exact LC4]]].
+  destruct mxo as [x|]; [|exact M2].
+  destruct (ml_mem_max _ ML _ _ EM) as [M3 _]. apply N.min_glb; auto.
+Qed.
